@@ -23,10 +23,17 @@ RULE = ('histories of 5-40 steps on one single- or multi-phase stream (5 chemica
         'on the stream, a phase view, a proxy/flow proxy/copy observer, the (possibly linked) partner, a multi-phase stream (reactions with phases) and directly on the array views mol/mass/vol; optionally as the very first operation on a '
         'fresh stream and followed by a write through one view; refused reactions (conversion over 100%, reaction chemicals lacking a flowing chemical) are counted and the views judged afterwards unless negative flows were left; '
         'observer kind copy(thermo=other package). '
+        'Oracle audit (round 6): every write in a unit of measure (set_flow, set_total_flow, constructors, reset_flow, Indexer.set_data) is also read back WITHOUT units (plain indexer read / F_mol, F_mass, F_vol) and compared with '
+        'value / factor from the harness table (clause unit-base), Stream.get_flow and Indexer.get_data are compared with each other (unit-paths); the molar volume reference picks the model of the phase itself (l/L -> .l, s/S -> .s, g -> .g); '
+        'refusals are granted only where the harness sees the reason in the inputs: undefined composition only for a total written to a stream whose molar data is all zero, a missing chemical only when the dropped chemical flows, '
+        'conversion over 100% only when the harness stoichiometric model leaves negative flows, a volumetric from-view write only when a molar volume model evaluated by the harness is undefined; anything else is reported. '
+        'All relative bounds are 1e-12 (worst residual of any clause over 28000 histories and the repository test suite: 9.4e-16; the residuals are recorded in the evidence). '
         'non-trivial = >=2 chemicals flowing at some check and >=1 structural change (T/P/phase/phases/link/unlink/package) in the history; distinct = hash of the history')
 MIN_NONTRIVIAL = {'quick': 300, 'thorough': 10000}
 ASSUMPTIONS = ['molar volumes are read from the Chemical objects (Chemical.V(phase, T, P)); the check judges the wiring of the views, not the volume models',
-               'conversion factors come from a fixed table of exact factors written in the harness']
+               'conversion factors come from a fixed table of exact factors written in the harness',
+               'the base units of the unit-less data are kmol/hr, kg/hr and m3/hr (documented on Stream.imol/imass/ivol and F_mol/F_mass/F_vol); the mass base is tied to the molar base by mol*MW and the volumetric base by mol*1000*V_i in check_views',
+               'whether a stoichiometric reaction converts over 100% is predicted by a small model in the harness (extent = X * reactant amount in the basis of definition); within 1e-9 of exact exhaustion either answer of the library is accepted']
 IDS = ('Water', 'Ethanol', 'Methanol', 'Octane', 'Acetone')
 PERM = ('Octane', 'Water', 'Acetone', 'Ethanol', 'Methanol')
 FACT = {'kmol/hr': ('mol', 1.0), 'mol/s': ('mol', 1000. / 3600.), 'kg/hr': ('mass', 1.0), 'lb/hr': ('mass', 1. / 0.45359237), 'g/min': ('mass', 1000. / 60.),
@@ -63,11 +70,37 @@ def required(tier):
             # round 5: reactions (temporary re-basing of the molar indexer) and re-based copies
             'react', 'react:wt', 'react:mol', 'react:other-chemicals', 'react:wt-other-chemicals', 'react:multi-phase', 'react:phase-view', 'react:array', 'react:observer', 'react:partner', 'react:linked', 'react:set',
             'react:query', 'react:force', 'react:first', 'react:post-write', 'react:chems:perm', 'react:chems:clone', 'react:chems:superset', 'react:chems:subset', 'react:refused:infeasible', 'react:refused:missing-chemical',
-            'observer:copy-thermo']
+            'observer:copy-thermo',
+            # oracle audit (round 6): base data behind every write in units, the two conversion paths, per-view from-view writes, refusals seen by the harness itself
+            'unit-base', 'unit-paths', 'unit-base:set_flow', 'unit-base:get_total_flow', 'unit-base:set_total_flow', 'unit-base:ctor', 'unit-base:ctor-total/single', 'unit-base:ctor-total/multi',
+            'unit-base:Indexer.set_data', 'unit-base:reset_flow', 'unit-base:reset_flow-total', 'arr:from-view:mol', 'arr:from-view:mass', 'arr:from-view:vol',
+            'refused:undefined-composition:F-empty', 'react:applied:subset', 'react:accepted:infeasible-flag', 'react:refused:infeasible:warranted', 'react:refused:missing-chemical:on-target']
 
 
 def Vi(chem, phase, T, P):
     return 1000. * chem.V(phase.lower() if phase in 'LS' else phase, T, P) if False else 1000. * chem.V(phase, T, P)
+
+
+# audit item 5: the harness resolves the phase letter itself ('L' second liquid and 'S' second solid use the liquid / solid model) and calls the model of that
+# phase directly; PhaseHandle.__call__ / .L / .S (the aliases the volumetric view of the library goes through) are not on the reference path
+PHASE_MODEL = {'l': 'l', 'L': 'l', 's': 's', 'S': 's', 'g': 'g'}
+
+
+def Vmodel(chem, phase):
+    """the molar volume model [m3/mol as f(T, P)] of one chemical in one phase, picked by the harness"""
+    V = chem.V
+    if hasattr(V, 'l'): return getattr(V, PHASE_MODEL[phase])
+    return V            # phase-locked chemicals carry a single-phase model
+
+
+def relerr(a, b):
+    """largest |a-b|/|b| over the entries (0 where a == b, inf where b == 0 != a, nan where undefined): `relerr(a, b) <= rtol` is np.allclose(a, b, rtol, atol=0)"""
+    a = np.asarray(a, float); b = np.asarray(b, float)
+    if a.shape != b.shape: return float('inf')
+    if not a.size: return 0.0
+    with np.errstate(all='ignore'):
+        e = np.where(a == b, 0.0, np.abs(a - b) / np.abs(b))
+    return float(e.max())
 
 
 def rows_of(s):
@@ -83,6 +116,7 @@ def dense2(x):
 
 
 def check_views(s, rec, where):
+    # NB: also called by the ambient monitor (vt/ambient.py) with a forwarding recorder that only offers check() and exception()
     chems = s.chemicals
     MW = chems.MW
     rows = rows_of(s)
@@ -101,20 +135,24 @@ def check_views(s, rec, where):
         rec.check(False, 'mass-view', f'shape/after-{where}', f'after {where}: the mass/vol views have shape {mass.shape}/{vol.shape} but the molar data has shape {mol.shape}')
         return False
     emass = mol * MW
-    ok &= rec.check(np.allclose(mass, emass, rtol=1e-12, atol=0), 'mass-view', f'after-{where}', f'after {where}: imass {mass.tolist()} != mol*MW {emass.tolist()}')
-    ok &= rec.check(np.allclose(np.atleast_2d(mass1).sum(0) if mass1.ndim == 2 else mass1, emass.sum(0), rtol=1e-12, atol=0), 'mass-view', f'summed/after-{where}', f'after {where}: stream.mass {mass1.tolist()} != sum over phases of mol*MW {emass.sum(0).tolist()}')
+    r = relerr(mass, emass)
+    ok &= rec.check(r <= 1e-12, 'mass-view', f'after-{where}', f'after {where}: imass {mass.tolist()} != mol*MW {emass.tolist()}', residual=r)
+    r = relerr(np.atleast_2d(mass1).sum(0) if mass1.ndim == 2 else mass1, emass.sum(0))
+    ok &= rec.check(r <= 1e-12, 'mass-view', f'summed/after-{where}', f'after {where}: stream.mass {mass1.tolist()} != sum over phases of mol*MW {emass.sum(0).tolist()}', residual=r)
     evol = np.zeros_like(mol)
-    for k, (p, r) in enumerate(rows):
+    for k, (p, row) in enumerate(rows):
         for j, c in enumerate(chems):
-            if r[j]: evol[k, j] = r[j] * 1000. * (c.V(p, T, P) if hasattr(c.V, 'l') else c.V(T, P))     # phase-locked chemicals carry a single-phase model
-    ok &= rec.check(np.allclose(vol, evol, rtol=1e-11, atol=0), 'vol-view', f'after-{where}', f'after {where}: ivol {vol.tolist()} != mol*V_i(phase={"/".join(p for p, _ in rows)},T={T},P={P}) {evol.tolist()}')
+            if row[j]: evol[k, j] = row[j] * 1000. * Vmodel(c, p)(T, P)
+    r = relerr(vol, evol)
+    ok &= rec.check(r <= 1e-12, 'vol-view', f'after-{where}', f'after {where}: ivol {vol.tolist()} != mol*V_i(phase={"/".join(p for p, _ in rows)},T={T},P={P}) {evol.tolist()}', residual=r)
     # added: the array views stream.vol and stream.mol (per chemical, summed over the phases on a multi-phase stream)
-    ok &= rec.check(vol1.shape[-1:] == evol.shape[-1:] and np.allclose(np.atleast_2d(vol1).sum(0) if vol1.ndim == 2 else vol1, evol.sum(0), rtol=1e-11, atol=0), 'vol-view', f'summed/after-{where}',
-                    f'after {where}: stream.vol {vol1.tolist()} != sum over phases of mol*V_i {evol.sum(0).tolist()}')
-    ok &= rec.check(mol1.shape[-1:] == mol.shape[-1:] and np.allclose(np.atleast_2d(mol1).sum(0) if mol1.ndim == 2 else mol1, mol.sum(0), rtol=1e-12, atol=0), 'mol-view', f'summed/after-{where}',
-                    f'after {where}: stream.mol {mol1.tolist()} != sum over phases of the molar data {mol.sum(0).tolist()}')
-    ok &= rec.check(abs(Fmol - mol.sum()) <= 1e-12 * mol.sum() and abs(Fmass - emass.sum()) <= 1e-12 * emass.sum() and abs(Fvol - evol.sum()) <= 1e-10 * evol.sum(), 'totals',
-                    f'after-{where}', f'after {where}: F_mol,F_mass,F_vol = {Fmol},{Fmass},{Fvol} but sums of the views are {mol.sum()},{emass.sum()},{evol.sum()}')
+    r = relerr(np.atleast_2d(vol1).sum(0) if vol1.ndim == 2 else vol1, evol.sum(0)) if vol1.shape[-1:] == evol.shape[-1:] else float('inf')
+    ok &= rec.check(r <= 1e-12, 'vol-view', f'summed/after-{where}', f'after {where}: stream.vol {vol1.tolist()} != sum over phases of mol*V_i {evol.sum(0).tolist()}', residual=r)
+    r = relerr(np.atleast_2d(mol1).sum(0) if mol1.ndim == 2 else mol1, mol.sum(0)) if mol1.shape[-1:] == mol.shape[-1:] else float('inf')
+    ok &= rec.check(r <= 1e-12, 'mol-view', f'summed/after-{where}', f'after {where}: stream.mol {mol1.tolist()} != sum over phases of the molar data {mol.sum(0).tolist()}', residual=r)
+    rt = max(relerr(Fmol, mol.sum()), relerr(Fmass, emass.sum()), relerr(Fvol, evol.sum()))
+    ok &= rec.check(abs(Fmol - mol.sum()) <= 1e-12 * mol.sum() and abs(Fmass - emass.sum()) <= 1e-12 * emass.sum() and abs(Fvol - evol.sum()) <= 1e-12 * evol.sum(), 'totals',
+                    f'after-{where}', f'after {where}: F_mol,F_mass,F_vol = {Fmol},{Fmass},{Fvol} but sums of the views are {mol.sum()},{emass.sum()},{evol.sum()}', residual=rt)
     return ok
 
 
@@ -244,21 +282,66 @@ def build_in_units(start, th, rec):
         wrote = dict(given)
         read = {key: s.get_flow(u, key) for key in wrote}
     rec.hit('ctor:units')
+    # audit item 1: the unit-less base data (plain indexer read, no unit on the path) against the harness's factor table
+    idx = getattr(s, 'i' + dim)
+    base = {key: float(idx[key]) for key in wrote}
     if tot is None:
         bad = {str(k): (v, read[k]) for k, v in wrote.items() if abs(read[k] - v) > 1e-12 * v}
-        rec.check(not bad, 'round-trip', f'ctor/{dim}/{kind}', f'constructor given flows in {u} reads back (written, read) {bad}')
+        rec.check(not bad, 'round-trip', f'ctor/{dim}/{kind}', f'constructor given flows in {u} reads back (written, read) {bad}', residual=max([relerr(read[k], v) for k, v in wrote.items()], default=0.0))
+        badb = {str(k): (v / f, base[k]) for k, v in wrote.items() if not abs(base[k] - v / f) <= 1e-12 * (v / f)}
+        rec.check(not badb, 'unit-base', f'ctor/{dim}/{u}/{kind}', f'constructor given flows in {u}: the base data i{dim} (no units) is not the given flows / {f} (expected, read) {badb}',
+                  residual=max([relerr(base[k], v / f) for k, v in wrote.items()], default=0.0))
+        rec.hit('unit-base:ctor')
     else:
         rec.hit('ctor:total')
         back = s.get_total_flow(u)
-        rec.check(abs(back - tot) <= 1e-10 * tot, 'round-trip', f'ctor-total/{dim}/{kind}', f'constructor given total_flow={tot} with units={u!r} has get_total_flow({u!r}) = {back}')
+        rec.check(abs(back - tot) <= 1e-12 * tot, 'round-trip', f'ctor-total/{dim}/{kind}', f'constructor given total_flow={tot} with units={u!r} has get_total_flow({u!r}) = {back}', residual=relerr(back, tot))
         sm = sum(wrote.values()); sr = sum(read.values())
-        bad = {str(k): (v / sm, read[k] / sr) for k, v in wrote.items() if abs(read[k] / sr - v / sm) > 1e-10 * abs(v / sm)} if sr else {'all': 'no flow'}
+        bad = {str(k): (v / sm, read[k] / sr) for k, v in wrote.items() if abs(read[k] / sr - v / sm) > 1e-12 * abs(v / sm)} if sr else {'all': 'no flow'}
         rec.check(not bad, 'total-keeps-composition', f'ctor-total/{dim}/{kind}', f'constructor given total_flow={tot} {u}: the fractions of the flows in {u} are not the given proportions (expected, read) {bad}')
+        check_base_total(rec, s, dim, tot, u, f'ctor-total/{kind}', f'constructor given total_flow={tot} with units={u!r}')
+        sb = sum(base.values())
+        badb = {str(k): (v / sm, base[k] / sb) for k, v in wrote.items() if not abs(base[k] / sb - v / sm) <= 1e-12 * abs(v / sm)} if sb else {'all': 'no flow'}
+        rec.check(not badb, 'total-keeps-composition', f'ctor-total-base/{dim}/{kind}', f'constructor given total_flow={tot} {u}: the fractions of the base data i{dim} (no units) are not the given proportions (expected, read) {badb}')
     return s
 
 
 def dense(x):
     return np.asarray(x.to_array() if hasattr(x, 'to_array') else x, float)
+
+
+def vol_models_defined(flows_of, at):
+    """audit item 3: the harness's own look at the molar volume models: every chemical flowing in `flows_of` has a positive finite molar volume at the phase, T, P of `at`."""
+    try:
+        row = rows_of(flows_of)[0][1]; chems = flows_of.chemicals.tuple
+        for j in np.flatnonzero(row):
+            v = Vmodel(chems[j], at.phase)(at.T, at.P)
+            if not (v > 0 and np.isfinite(v)): return False
+    except Exception:
+        return False
+    return True
+
+
+def check_base(rec, s, dim, key, data, u, op, what):
+    """audit item 1: a value written in the unit u is tied to the unit-less base data (kmol/hr, kg/hr, m3/hr) through the harness's own factor table:
+    the plain indexer read stream.i<dim>[key] (no unit anywhere on the path) must be data / FACT[u]. The base data itself is tied to mol*MW / mol*V_i by
+    check_views, so a conversion error common to a whole dimension (wrong base unit, inverted factor) no longer cancels between a write and a read in units."""
+    f = FACT[u][1]
+    idx = getattr(s, 'i' + dim)
+    got = dense(idx.data if key is None else idx[key]); exp = np.asarray(data, float) / f
+    r = relerr(got, exp)
+    rec.hit('unit-base:' + op)
+    return rec.check(r <= 1e-12, 'unit-base', f'{op}/{dim}/{u}', f'{what}: the base data i{dim}[{key}] (no units) is {got.tolist()} but {np.asarray(data).tolist()} {u} is {exp.tolist()} in the base unit '
+                     f'(harness factor {f} {u} per base unit)', residual=r)
+
+
+def check_base_total(rec, s, dim, value, u, op, what, rtol=1e-12):
+    """audit item 1: a total written / read in the unit u against the unit-less total F_<dim> through the harness's factor table."""
+    f = FACT[u][1]
+    got = float(getattr(s, 'F_' + dim)); exp = value / f
+    r = relerr(got, exp)
+    rec.hit('unit-base:' + op)
+    return rec.check(r <= rtol, 'unit-base', f'{op}/{dim}/{u}', f'{what}: the total F_{dim} (no units) is {got} but {value} {u} is {exp} in the base unit (harness factor {f} {u} per base unit)', residual=r)
 
 
 def expect_rejected(rec, k, form, units, call, s):
@@ -298,6 +381,31 @@ def rx_chemicals(how, chems, th, th2, locked6, drop):
 
 def negative_left(*streams):
     return any((r < 0).any() for x in streams if x is not None for _, r in rows_of(x))
+
+
+def predict_negative(T, prims, defbasis, basis):
+    """audit item 4: the harness's own stoichiometric model of a reaction (set) applied to the flows of T, to decide from the inputs whether 'conversion over 100%' can be
+    claimed. prims = nested list: a tuple (reactant, X, {key: coefficient}) is one reaction, a list is a parallel set (all extents taken from the same state), the outer
+    list runs in series; key = (row, column) in rows_of(T). The coefficients are in the basis the reaction was DEFINED on (defbasis: mol or wt; a reaction converted with
+    copy(basis=) describes the same change). Returns (neg, near): neg = the sum of the negative entries of the reacted flows expressed in the basis the reaction is APPLIED
+    on (kmol/hr or kg/hr; the library refuses when that sum is below -1e-12), near = some entry ends within rounding (1e-9 of the amounts added and removed) of zero, so
+    that the sign the library computes is not decided by the inputs."""
+    MW = np.asarray(T.chemicals.MW, float)
+    W = np.array([r for _, r in rows_of(T)], float)
+    if defbasis == 'wt': W = W * MW
+    W0 = W.copy(); M = np.abs(W)
+    def delta(Wc, prim):
+        r, X, nu = prim
+        ext = X * Wc[r] / abs(nu[r])
+        d = np.zeros_like(Wc)
+        for key, c in nu.items(): d[key] += c * ext
+        return d
+    for stage in prims:
+        ds = [delta(W, q) for q in stage] if isinstance(stage, list) else [delta(W, stage)]
+        for d in ds: W = W + d; M = M + np.abs(d)
+    near = bool(((np.abs(W) <= 1e-9 * M) & (W != W0)).any())
+    if defbasis != basis: W = W / MW if defbasis == 'wt' else W * MW
+    return float(W[W < 0].sum()), near
 
 
 def do_react(st, k, s, partner, obs, obs_kind, linked, CIDS, th, th2, locked6, rec, first=False):
@@ -343,6 +451,17 @@ def do_react(st, k, s, partner, obs, obs_kind, linked, CIDS, th, th2, locked6, r
     elif rk == 'parallel': rx = tmo.ParallelReaction([r1, R(f'{tag(c, p)} -> {c2} {tag(b, p)}', c, X2)])
     elif rk == 'series': rx = tmo.SeriesReaction([r1, R(f'{tag(b, p2)} -> {c2} {tag(c, p2)}', b, X2)])
     else: rx = tmo.ReactionSystem(r1, tmo.ParallelReaction([R(f'{tag(b, p2)} -> {c2} {tag(c, p)}', b, X2), R(f'{tag(c, p)} -> {tag(b, p)}', c, 0.5 * X2)]))
+    def model():
+        """audit item 4: the same reaction(s) written down for the harness's own model (predict_negative), positions taken from rows_of(T) / T.chemicals"""
+        col = T.chemicals.IDs.index
+        row = (lambda q: T.phases.index(q)) if Tm else (lambda q: 0)
+        K = lambda x, q: (row(q), col(x))
+        m1 = (K(a, p), X, {K(a, p): -1., K(c, p): -50., K(b, p2): float(c1)}) if infeasible else (K(a, p), X, {K(a, p): -1., K(b, p2): float(c1), K(c, p): float(c2)})
+        if rk == 'single': return [m1]
+        if rk == 'parallel': return [[m1, (K(c, p), X2, {K(c, p): -1., K(b, p): float(c2)})]]
+        if rk == 'series': return [m1, (K(b, p2), X2, {K(b, p2): -1., K(c, p2): float(c2)})]
+        return [m1, [(K(b, p2), X2, {K(b, p2): -1., K(c, p): float(c2)}), (K(c, p), 0.5 * X2, {K(c, p): -1., K(b, p): 1.})]]
+    defbasis = basis if made != 'copy' else ('mol' if basis == 'wt' else 'wt')
     material = getattr(T, st['view']) if target == 'array' else T
     label = f'{basis}/{"same-chemicals" if how == "same" else "other-chemicals"}/{target}'        # which other Chemicals object (permuted, clone, superset, subset) is in the reach counters and the witness
     if target == 'array': label += ':' + st['view']
@@ -367,12 +486,25 @@ def do_react(st, k, s, partner, obs, obs_kind, linked, CIDS, th, th2, locked6, r
         # an input the library may refuse (conversion over 100% / the reaction's chemicals lack a chemical that flows): the refusal itself is counted, not judged.
         # What is judged is the state the refusal leaves behind: the stream still has to satisfy the view relations. It is offered to a copy of the target first so
         # that the history of the stream under test goes on undisturbed (a refusal that leaves negative flows behind is outside the quantifier and is not judged).
+        # audit item 4: a refusal is granted only when the harness sees in the inputs that it is warranted: the chemical the reaction's chemicals lack (d) flows in the
+        # target / the harness's own stoichiometric model leaves negative flows. A refusal the inputs do not warrant is raised on (reported as C11/react/exception/<type>@<site>).
+        jd = T.chemicals.IDs.index(d)
+        d_flows = how == 'subset' and any(r[jd] != 0 for _, r in rows_of(T))
+        neg, near = predict_negative(T, model(), defbasis, basis) if (infeasible and not d_flows) else (0.0, False)
         probe = T.copy()
         try: apply(probe)
         except Exception as e:
             nm = type(e).__name__
-            if nm == 'InfeasibleRegion' and infeasible: reason = 'infeasible'
-            elif nm.startswith('UndefinedChemical') and how == 'subset': reason = 'missing-chemical'
+            if nm == 'InfeasibleRegion' and infeasible and not d_flows:
+                reason = 'infeasible'
+                if neg > -1e-15 and not near:
+                    rec.hit('react:unwarranted-refusal:infeasible'); raise        # the harness's model leaves no negative flow: nothing is converted over 100%
+                if neg > -1e-9 or near: rec.hit('react:refused:infeasible:borderline')     # within rounding of the library's threshold (-1e-12): either answer is accepted
+                else: rec.hit('react:refused:infeasible:warranted')
+            elif nm.startswith('UndefinedChemical') and how == 'subset':
+                reason = 'missing-chemical'
+                if not d_flows:
+                    rec.hit('react:unwarranted-refusal:missing-chemical'); raise    # every flowing chemical is defined in the reaction's chemicals
             else: raise
             rec.refuse('reaction refused: ' + reason); rec.hit('react:refused:' + reason)
             where = f'react-refused:{reason}/{basis}'
@@ -382,8 +514,29 @@ def do_react(st, k, s, partner, obs, obs_kind, linked, CIDS, th, th2, locked6, r
                 rec.check(False, 'mass-view', f'shape/after-{where}', f'after a refused reaction ({reason}; reaction chemicals {chems.IDs}) the molar data of the stream has {sorted(width)} columns but its chemicals {probe.chemicals.IDs} has {len(probe.chemicals.MW)}')
                 return where, False
             check_views(probe, rec, where)
+            if reason == 'missing-chemical':
+                # the refusal for a missing chemical comes before any change (documented in reset_chemicals): the same reaction offered to the real target (with its links,
+                # observers and cached views) has to be refused the same way and leave the flows as they were; the views of all streams are judged after it by the caller
+                before = [r.copy() for _, r in rows_of(T)]
+                try: apply(material)
+                except Exception as e2:
+                    if not type(e2).__name__.startswith('UndefinedChemical'): raise
+                else:
+                    rec.hit('react:refused-on-copy-accepted-on-target')      # not judged: the copy and the target differ in nothing the reaction may look at
+                after = [r for _, r in rows_of(T)]
+                width = {len(r) for r in after}
+                if width != {len(T.chemicals.MW)}:
+                    rec.check(False, 'mass-view', f'shape/after-{where}', f'after a refused reaction ({reason}; reaction chemicals {chems.IDs}) the molar data of the target has {sorted(width)} columns but its chemicals {T.chemicals.IDs} has {len(T.chemicals.MW)}')
+                    return where, True
+                if not (len(before) == len(after) and all(np.array_equal(x, y) for x, y in zip(before, after))): rec.hit('react:refused:missing-chemical:target-flows-changed')   # counted, not a clause of this property
+                rec.hit('react:refused:missing-chemical:on-target')
+                if T is not s and T is not partner and T is not obs and not check_views(T, rec, where + '(target)'): return where, True
             return where, False
+        if how == 'subset': rec.hit('react:accepted:subset')
+        if infeasible: rec.hit('react:accepted:infeasible-flag')
+        if infeasible and neg < -1e-9 and not near: rec.hit('react:model-negative-but-accepted')      # counted (validates the harness model from the other side), not a clause of this property
     apply(material)
+    if how == 'subset' and target != 'array': rec.hit('react:applied:subset')        # the re-basing onto fewer chemicals and back was carried out on the real target
     where = 'react:' + label
     if st.get('post'):
         # a write through one view right after the reaction: it has to be seen by the other views
@@ -433,6 +586,8 @@ def run_case(case, rec):
         if st.get('v') == 0 and t in ('imol', 'imass', 'ivol', 'set_flow', 'idx-units', 'arr', 'keyed', 'obs-write'): rec.hit('zero-write')
         if obs_kind == 'flow_proxy' and t in ('phases', 'copy_like', 'mix', 'collapse', 'data', 'temporary', 'reset_flow', 'copy_flow', 'package', 'link', 'unlink'):
             obs = None; obs_kind = None     # a flow proxy shares the data array but keeps its own phase set: a change of the phase set / data array on one side is the same exclusion as for links
+        # audit item 2: 'undefined composition' is a documented refusal only for a total written to a stream that carries no flow; the harness looks at the molar data itself
+        no_flow = t in ('F', 'set_total', 'F0', 'F-empty') and not any(r.any() for _, r in rows_of(s))
         try:
             if t in ('imol', 'imass', 'ivol'):
                 idx = getattr(s, t)
@@ -461,16 +616,28 @@ def run_case(case, rec):
                 else:
                     s.set_flow(data, st['units'], key); back = s.get_flow(st['units'], key)
                 back = np.asarray(back.to_array() if hasattr(back, 'to_array') else back, float)
-                rec.check(np.allclose(back, data, rtol=1e-12, atol=0), 'round-trip', f'set_flow/{name}', f'step {k}: set_flow({data}, {st["units"]}) then get_flow gives {back.tolist()}')
+                r = relerr(back, data)
+                rec.check(r <= 1e-12, 'round-trip', f'set_flow/{name}', f'step {k}: set_flow({data}, {st["units"]}) then get_flow gives {back.tolist()}', residual=r)
+                # audit item 1: what was written in units, against the unit-less base data; the two conversion paths (Stream.get_flow / Indexer.get_data) against each other;
+                # the total read in units against the unit-less total
+                bkey = mkey if multi else key
+                check_base(rec, s, name, bkey, data, st['units'], 'set_flow', f'step {k}: set_flow({data}, {st["units"]!r}, {bkey})')
+                gd_args = ((ph,) if kk == 'phase' else (ph, key)) if multi else (key,)
+                via_idx = dense(getattr(s, 'i' + name).get_data(st['units'], *gd_args))
+                r = relerr(via_idx, back)
+                rec.check(r <= 1e-12, 'unit-paths', f'get_flow-vs-Indexer.get_data/{name}/{st["units"]}', f'step {k}: get_flow({st["units"]!r}, {bkey}) = {back.tolist()} but i{name}.get_data({st["units"]!r}, {gd_args}) = {via_idx.tolist()}', residual=r)
+                rec.hit('unit-paths')
+                check_base_total(rec, s, name, s.get_total_flow(st['units']), st['units'], 'get_total_flow', f'step {k}: get_total_flow({st["units"]!r})', rtol=1e-12)
                 # reading in another unit of the same dimension = value x fixed factor ratio
                 name2, f2 = FACT[st['read']]
                 if name2 == name:
                     other = s.get_flow(st['read'], mkey) if multi else s.get_flow(st['read'], key)
                     other = np.asarray(other.to_array() if hasattr(other, 'to_array') else other, float)
-                    rec.check(np.allclose(other, np.asarray(data, float) * (f2 / f), rtol=1e-9, atol=0), 'unit-factor', f'{st["units"]}->{st["read"]}',
-                              f'step {k}: {data} {st["units"]} read as {other.tolist()} {st["read"]} (expected factor {f2 / f})')
+                    r = relerr(other, np.asarray(data, float) * (f2 / f))
+                    rec.check(r <= 1e-12, 'unit-factor', f'{st["units"]}->{st["read"]}',
+                              f'step {k}: {data} {st["units"]} read as {other.tolist()} {st["read"]} (expected factor {f2 / f})', residual=r)
                     tot = s.get_total_flow(st['read']); tot0 = s.get_total_flow(st['units'])
-                    rec.check(abs(tot - tot0 * f2 / f) <= 1e-9 * abs(tot), 'unit-factor', f'total/{st["units"]}->{st["read"]}', f'step {k}: total {tot0} {st["units"]} = {tot} {st["read"]}')
+                    rec.check(abs(tot - tot0 * f2 / f) <= 1e-12 * abs(tot), 'unit-factor', f'total/{st["units"]}->{st["read"]}', f'step {k}: total {tot0} {st["units"]} = {tot} {st["read"]}', residual=relerr(tot, tot0 * f2 / f))
                 if multi:
                     # added: get_flow(units, IDs) without a phase on a multi-phase stream is the sum over the phases
                     got = dense(s.get_flow(st['units'], key)); exp = sum(dense(s.get_flow(st['units'], (p, key))) for p in s.phases)
@@ -481,7 +648,7 @@ def run_case(case, rec):
                 comp = np.array([r for _, r in rows_of(s)]); comp = comp / comp.sum()
                 setattr(s, st['which'], st['v'])
                 back = getattr(s, st['which'])
-                rec.check(abs(back - st['v']) <= 1e-10 * st['v'], 'round-trip', st['which'], f'step {k}: set {st["which"]}={st["v"]} read back {back}')
+                rec.check(abs(back - st['v']) <= 1e-12 * st['v'], 'round-trip', st['which'], f'step {k}: set {st["which"]}={st["v"]} read back {back}', residual=relerr(back, st['v']))
                 comp2 = np.array([r for _, r in rows_of(s)]); comp2 = comp2 / comp2.sum()
                 rec.check(np.allclose(comp, comp2, rtol=1e-12, atol=1e-300), 'total-keeps-composition', st['which'], f'step {k}: setting {st["which"]} changed the composition')
             elif t == 'set_total':
@@ -489,7 +656,8 @@ def run_case(case, rec):
                 comp = np.array([r for _, r in rows_of(s)]); comp = comp / comp.sum()
                 s.set_total_flow(st['v'], st['units'])
                 back = s.get_total_flow(st['units'])
-                rec.check(abs(back - st['v']) <= 1e-10 * st['v'], 'round-trip', f'set_total_flow/{FACT[st["units"]][0]}', f'step {k}: set_total_flow({st["v"]}, {st["units"]}) read back {back}')
+                rec.check(abs(back - st['v']) <= 1e-12 * st['v'], 'round-trip', f'set_total_flow/{FACT[st["units"]][0]}', f'step {k}: set_total_flow({st["v"]}, {st["units"]}) read back {back}', residual=relerr(back, st['v']))
+                check_base_total(rec, s, FACT[st['units']][0], st['v'], st['units'], 'set_total_flow', f'step {k}: set_total_flow({st["v"]}, {st["units"]!r})')
                 comp2 = np.array([r for _, r in rows_of(s)]); comp2 = comp2 / comp2.sum()
                 rec.check(np.allclose(comp, comp2, rtol=1e-12, atol=1e-300), 'total-keeps-composition', 'set_total_flow', f'step {k}: set_total_flow changed the composition')
             elif t == 'T': s.T = st['v']; structural += 1; rec.hit('after:T')
@@ -571,10 +739,20 @@ def run_case(case, rec):
                     data = np.array([st['v'] * (m % 3) for m in range(int(np.prod(shape)))], float).reshape(shape)
                 idx.set_data(data, u, *args)
                 back = dense(idx.get_data(u, *args)); other = dense(idx.get_data(u2, *args))
-                rec.check(back.shape == np.shape(data) and np.allclose(back, data, rtol=1e-12, atol=0), 'round-trip', f'Indexer.set_data/{view}/{form}/{kind}',
-                          f'step {k}: {view}.set_data({np.asarray(data).tolist()}, {u!r}, {args}) then get_data gives {back.tolist()}')
-                rec.check(other.shape == np.shape(data) and np.allclose(other, np.asarray(data) * (f2 / f), rtol=1e-9, atol=0), 'unit-factor', f'Indexer.get_data/{u}->{u2}',
-                          f'step {k}: {np.asarray(data).tolist()} {u} read through {view}.get_data as {other.tolist()} {u2} (expected factor {f2 / f})')
+                r = relerr(back, data)
+                rec.check(r <= 1e-12, 'round-trip', f'Indexer.set_data/{view}/{form}/{kind}',
+                          f'step {k}: {view}.set_data({np.asarray(data).tolist()}, {u!r}, {args}) then get_data gives {back.tolist()}', residual=r)
+                r = relerr(other, np.asarray(data) * (f2 / f))
+                rec.check(r <= 1e-12, 'unit-factor', f'Indexer.get_data/{u}->{u2}',
+                          f'step {k}: {np.asarray(data).tolist()} {u} read through {view}.get_data as {other.tolist()} {u2} (expected factor {f2 / f})', residual=r)
+                # audit item 1: the unit-less base data behind the write in units; Stream.get_flow against Indexer.get_data
+                dimv = view[1:]
+                check_base(rec, s, dimv, None if form == 'whole' else (args if multi else args[0]), data, u, 'Indexer.set_data', f'step {k}: {view}.set_data({np.asarray(data).tolist()}, {u!r}, {args})')
+                if form != 'whole':
+                    via_s = dense(s.get_flow(u, args if multi else args[0]))
+                    r = relerr(via_s, back)
+                    rec.check(r <= 1e-12, 'unit-paths', f'Indexer.get_data-vs-get_flow/{dimv}/{u}', f'step {k}: {view}.get_data({u!r}, {args}) = {back.tolist()} but get_flow({u!r}, {args}) = {via_s.tolist()}', residual=r)
+                    rec.hit('unit-paths')
                 rec.hit('idx-units:' + form)
             elif t == 'arr':
                 A = s[ph] if multi else s
@@ -594,22 +772,28 @@ def run_case(case, rec):
                         elif st.get('how') == 'copy_like': getattr(A, view).copy_like(getattr(donor, view))
                         else: setattr(A, view, getattr(donor, view))
                     except Exception as e:
-                        if isinstance(e, (RuntimeError, ValueError)) and view == 'vol': rec.refuse('volumetric view of the donor / target not available (model domain)'); continue
+                        # audit item 3: 'the volume model is outside its domain' is granted only when the harness, evaluating the molar volume models of the chemicals that flow
+                        # in the donor itself (at the donor's and at the target's phase, T, P), finds one that raises or is not a positive finite number; any other
+                        # RuntimeError / ValueError of a volumetric write (shape, sparse conversion, ...) is reported
+                        if isinstance(e, (RuntimeError, ValueError)) and view == 'vol' and not (vol_models_defined(donor, donor) and vol_models_defined(donor, A)):
+                            rec.refuse('volumetric view of the donor / target not available (model domain)'); rec.hit('arr:from-view:refused:vol'); continue
                         raise
                     back = dense(getattr(A, view))
-                    okrt = back.shape == data.shape and np.allclose(back, data, rtol=1e-11, atol=0)
-                    rec.hit('arr:from-view')
+                    rr = relerr(back, data)
+                    okrt = rr <= 1e-12
+                    rec.hit('arr:from-view'); rec.hit('arr:from-view:' + view)
                     form = 'from-view/' + st.get('how', 'setter') + ('/other-phase' if st.get('dph') else '') + ('/other-T' if st.get('dT') else '')
                 elif form == 'item':
                     getattr(A, view)[j] = st['v']; back = float(getattr(A, view)[j]); data = st['v']
-                    okrt = abs(back - data) <= 1e-12 * data
+                    okrt = abs(back - data) <= 1e-12 * data; rr = relerr(back, data)
                 else:
                     data = np.array([st['v'] * (m + 1) if (m + st['k']) % 2 else 0.0 for m in range(nA)])
                     if form == 'slice': getattr(A, view)[:] = data
                     else: setattr(A, view, data)
                     back = dense(getattr(A, view))
-                    okrt = back.shape == data.shape and np.allclose(back, data, rtol=1e-12, atol=0)
-                rec.check(okrt, 'round-trip', f'array-view/{view}/{form}/{"phase-view" if multi else "single"}', f'step {k}: wrote {np.asarray(data).tolist()} through stream.{view} ({form}) and read back {np.asarray(back).tolist()}')
+                    rr = relerr(back, data)
+                    okrt = rr <= 1e-12
+                rec.check(okrt, 'round-trip', f'array-view/{view}/{form}/{"phase-view" if multi else "single"}', f'step {k}: wrote {np.asarray(data).tolist()} through stream.{view} ({form}) and read back {np.asarray(back).tolist()}', residual=rr)
                 rec.hit('arr:' + form)
                 if multi and not check_views(A, rec, f'{t}(phase-view)'): return
             elif t == 'keyed':
@@ -646,6 +830,8 @@ def run_case(case, rec):
                 s.empty()
                 if not check_views(s, rec, 'empty'): return
                 rec.hit('total:on-empty')
+                no_flow = not any(r.any() for _, r in rows_of(s))       # seen by the harness in the molar data (not through isempty / F_mol)
+                if not no_flow: rec.hit('empty:flows-left')      # counted (what empty() does is not a clause of this property): a refusal of the total below is then not granted
                 which = st['which']
                 # a positive total on an empty stream has no composition to scale: documented refusal (AttributeError 'undefined composition', counted below)
                 if which == 'set_total': s.set_total_flow(st['v'], st['units'])
@@ -731,18 +917,36 @@ def run_case(case, rec):
                     s.reset_flow(units=u, total_flow=tot, **kw, **{i: st['v'], i2: 2 * st['v']})
                     back = dense(s.get_flow(u, (i, i2)))
                 exp = np.array([st['v'], 2 * st['v']]) * (1.0 if tot is None else tot / (3 * st['v']))
-                rec.check(np.allclose(back, exp, rtol=1e-10, atol=0), 'round-trip', f'reset_flow{"-total" if tot else ""}/{dim}/{kind}', f'step {k}: reset_flow(units={u!r}, total_flow={tot}, {i}={st["v"]}, {i2}={2 * st["v"]}) reads back {back.tolist()} {u}, expected {exp.tolist()}')
+                r = relerr(back, exp)
+                rec.check(r <= 1e-12, 'round-trip', f'reset_flow{"-total" if tot else ""}/{dim}/{kind}', f'step {k}: reset_flow(units={u!r}, total_flow={tot}, {i}={st["v"]}, {i2}={2 * st["v"]}) reads back {back.tolist()} {u}, expected {exp.tolist()}', residual=r)
+                # audit item 1: the unit-less base data behind reset_flow(units=...)
+                rkey = (ph, (i, i2)) if multi else (i, i2)
+                fb = FACT[u][1]
+                got = dense(getattr(s, 'i' + dim)[rkey]); r = relerr(got, exp / fb)
+                rec.check(r <= 1e-12, 'unit-base', f'reset_flow{"-total" if tot else ""}/{dim}/{u}', f'step {k}: reset_flow(units={u!r}, total_flow={tot}, {i}={st["v"]}, {i2}={2 * st["v"]}): the base data i{dim}[{rkey}] (no units) is {got.tolist()}, expected {(exp / fb).tolist()} '
+                          f'(harness factor {fb} {u} per base unit)', residual=r)
+                rec.hit('unit-base:reset_flow')
                 if tot is not None:
                     bt = s.get_total_flow(u)
-                    rec.check(abs(bt - tot) <= 1e-10 * tot, 'round-trip', f'reset_flow-total/{dim}/{kind}/total', f'step {k}: reset_flow(total_flow={tot}, units={u!r}) has total {bt} {u}')
+                    rec.check(abs(bt - tot) <= 1e-12 * tot, 'round-trip', f'reset_flow-total/{dim}/{kind}/total', f'step {k}: reset_flow(total_flow={tot}, units={u!r}) has total {bt} {u}', residual=relerr(bt, tot))
+                    check_base_total(rec, s, dim, tot, u, 'reset_flow-total', f'step {k}: reset_flow(total_flow={tot}, units={u!r})')
                 structural += 1; rec.hit('after:reset_flow')
             elif t == 'react':
                 where, end = do_react(st, k, s, partner, obs, obs_kind, linked or rlinked, CIDS, th, th2, locked6, rec)
                 if end: return
                 structural += 1
         except AttributeError as e:
-            if 'undefined composition' in str(e): rec.refuse('undefined composition'); continue
-            rec.exception(t, e, what=f'step {k} {st} raised AttributeError: {str(e)[:150]}'); return
+            if 'undefined composition' in str(e):
+                # audit item 2: granted only where the harness saw a stream without any flow before a total was written (steps F-empty / F0 on an empty stream); on a stream
+                # that carries flow the total has a composition to scale and the write must be carried out. The views are judged after the refused write all the same.
+                wh = st.get('which') or FACT.get(st.get('units'), ('?',))[0]
+                if not no_flow:
+                    rec.check(False, 'round-trip', f'undefined-composition-on-stream-with-flow/{t}/{wh}', f'step {k} {st}: writing a total on a stream that carries flow {[r.tolist() for _, r in rows_of(s)]} '
+                              f'was refused with AttributeError: {str(e)[:150]}')
+                    return
+                rec.refuse('undefined composition'); rec.hit('refused:undefined-composition:' + t)
+            else:
+                rec.exception(t, e, what=f'step {k} {st} raised AttributeError: {str(e)[:150]}'); return
         except Exception as e:
             rec.exception(t, e, what=f'step {k} {st} raised {type(e).__name__}: {str(e)[:150]}'); return
         if isinstance(s, tmo.MultiStream): rec.hit('multi-phase')
